@@ -16,7 +16,7 @@ func init() {
 			"meta bytes are written before node pointers (and cleared before them); size accounting is +1/-1/0 exactly once per insert/delete/update; Range calls the user function only after releasing the bucket lock; the cache's iterators yield only live, unexpired nodes. "+
 			"NOT decided: linearizability and weak consistency of iteration over all schedules; hash-collision behaviour.",
 		[]string{"sync.Mutex / sync/atomic semantics", "node Key() is immutable (C02.immut)"},
-		ruleC15Once, ruleC15RMW, ruleC15Recheck, ruleC15LockPair, ruleC15Publish, ruleC15Current, ruleC15KeyCheck, ruleC15Atomic, ruleC15MetaOrder, ruleC15Size, ruleC15Range)
+		ruleC15Once, ruleC15RMW, ruleC15Recheck, ruleC15LockPair, ruleC15Publish, ruleC15Current, ruleC15KeyCheck, ruleC15Atomic, ruleC15MetaOrder, ruleC15Size, ruleC15Range, ruleC15CopyAll)
 }
 
 const hmPkg = "internal/hashmap"
@@ -991,4 +991,153 @@ func ruleC15Range(cx *Ctx) {
 	if found == 0 {
 		cx.R.Violate(rule, funcName(nodes), "yield", cx.P.Pos(nodes.Pos()), "cache.nodes no longer yields range nodes")
 	}
+}
+
+// ruleC15CopyAll: a resize copies every bucket of the old table.
+func ruleC15CopyAll(cx *Ctx) {
+	const rule = "C15.copyall"
+	cx.R.Rule(rule, 4, "resize copies every bucket of the old table: the serial loop runs i = 0..len-1; the parallel variant starts goroutines for c = 0..chunks-1 over [c*S, min((c+1)*S, len)) with S = ceil(len/chunks), each copying i = start..end-1, and waits for all of them before publishing")
+	fn := cx.need(rule, hmPkg, "Map", "resize")
+	if fn == nil {
+		return
+	}
+	name := funcName(fn)
+	var goInstr *ssa.Go
+	allInstrs(fn, func(in ssa.Instruction) {
+		if g, ok := in.(*ssa.Go); ok {
+			goInstr = g
+		}
+	})
+	copyB := cx.P.Func(hmPkg, "Map", "copyBucket")
+	// serial loop
+	serialOK := false
+	var L ssa.Value
+	allInstrs(fn, func(in ssa.Instruction) {
+		if copyB != nil && isCallTo(in, copyB) {
+			a := callArgs(in)
+			if ia, ok := a[0].(*ssa.IndexAddr); ok {
+				if ph, ok := ia.Index.(*ssa.Phi); ok {
+					zero := false
+					for _, e := range ph.Edges {
+						if c, ok := constInt(e); ok && c == 0 {
+							zero = true
+						}
+					}
+					for _, u := range usesOf(ph) {
+						if b, ok := u.(*ssa.BinOp); ok && b.Op == token.LSS && b.X == ssa.Value(ph) {
+							if c, ok := b.Y.(*ssa.Call); ok && isBuiltinCall(c, "len") {
+								serialOK = zero
+								L = b.Y
+							}
+						}
+					}
+				}
+			}
+		}
+	})
+	cx.R.Check(serialOK, rule, name, "serial copy covers 0..len-1", cx.P.Pos(fn.Pos()), "the serial copy loop visits every bucket index of the old table")
+	if goInstr == nil {
+		cx.R.OK(rule, name, "no parallel copy", cx.P.Pos(fn.Pos()), "resize copies serially only")
+		return
+	}
+	a := goInstr.Call.Args
+	okRange := false
+	detail := ""
+	if len(a) == 2 && L != nil {
+		tb := newTermBuilder()
+		tb.subst[L] = tVar("L")
+		start, end := a[0], a[1]
+		// induction variable c and chunks
+		var cphi *ssa.Phi
+		var phis []*ssa.Phi
+		collectPhis(start, map[ssa.Value]bool{}, &phis)
+		for _, p := range phis {
+			if _, _, ok := inductionRangeVar(p); ok {
+				cphi = p
+			}
+		}
+		if cphi != nil {
+			_, bound, _ := inductionRangeVar(cphi)
+			tb.subst[cphi] = tVar("c")
+			tb.subst[bound] = tVar("chunks")
+			st := tb.of(start).String()
+			var endT string
+			if m, ok := end.(*ssa.Call); ok && isBuiltinCall(m, "min") {
+				x, y := tb.of(m.Call.Args[0]).String(), tb.of(m.Call.Args[1]).String()
+				if y == "L" {
+					endT = x
+				} else if x == "L" {
+					endT = y
+				}
+			}
+			S1 := mk("/", mk("-", mk("+", tVar("L"), tVar("chunks")), tConst(1)), tVar("chunks"))
+			S2 := mk("+", mk("/", mk("-", tVar("L"), tConst(1)), tVar("chunks")), tConst(1))
+			for _, S := range []*Term{S1, S2} {
+				if st == mk("*", tVar("c"), S).String() && endT == mk("*", mk("+", tVar("c"), tConst(1)), S).String() {
+					okRange = true
+				}
+			}
+			detail = "start=" + st + " end=min(" + endT + ", L)"
+		}
+	}
+	cx.R.Check(okRange, rule, name, "chunks tile 0..len-1", cx.P.where(goInstr), "chunk c covers [c*S, min((c+1)*S, len)) with S = ceil(len/chunks), c = 0..chunks-1 ("+detail+")")
+	// each goroutine copies start..end-1
+	cl := closureOf(goInstr.Call.Value)
+	inner := false
+	if cl != nil {
+		allInstrs(cl, func(in ssa.Instruction) {
+			if c := calleeOf(in); c != nil && strings.HasPrefix(c.Name(), "copyBucket") {
+				if ia, ok := callArgs(in)[0].(*ssa.IndexAddr); ok {
+					if ph, ok := ia.Index.(*ssa.Phi); ok {
+						fromStart, toEnd := false, false
+						for _, e := range ph.Edges {
+							if e == ssa.Value(cl.Params[0]) {
+								fromStart = true
+							}
+						}
+						for _, u := range usesOf(ph) {
+							if b, ok := u.(*ssa.BinOp); ok && b.Op == token.LSS && b.X == ssa.Value(ph) && b.Y == ssa.Value(cl.Params[1]) {
+								toEnd = true
+							}
+						}
+						inner = fromStart && toEnd
+					}
+				}
+			}
+		})
+	}
+	cx.R.Check(inner, rule, name, "goroutine copies its whole range", cx.P.where(goInstr), "each copy goroutine visits i = start .. end-1")
+	// all goroutines are awaited before the table is published
+	table := cx.P.Field(hmPkg, "Map", "table")
+	var wait, pub ssa.Instruction
+	allInstrs(fn, func(in ssa.Instruction) {
+		if isStdMethod(in, "sync", "WaitGroup", "Wait") {
+			wait = in
+		}
+		if isStdMethod(in, "sync/atomic", "Pointer", "Store") && sameField(recvField(in), table) {
+			pub = in
+		}
+	})
+	cx.R.Check(wait != nil && pub != nil && !canReach(pub, wait) && canReach(wait, pub), rule, name, "copy awaited before publish", cx.P.Pos(fn.Pos()), "the new table is published only after every copy goroutine finished")
+}
+
+// inductionRangeVar: phi = phi(0, phi+1) bounded by phi < bound (any value).
+func inductionRangeVar(ph *ssa.Phi) (uint64, ssa.Value, bool) {
+	hasInit, hasStep := false, false
+	for _, e := range ph.Edges {
+		if c, ok := constUint(e); ok && c == 0 {
+			hasInit = true
+		} else if isAddConst(e, ph, 1) {
+			hasStep = true
+		}
+	}
+	if !hasInit || !hasStep {
+		return 0, nil, false
+	}
+	for _, u := range usesOf(ph) {
+		if b, ok := u.(*ssa.BinOp); ok && b.Op == token.LSS && b.X == ssa.Value(ph) {
+			return 0, b.Y, true
+		}
+	}
+	return 0, nil, false
 }
